@@ -92,10 +92,8 @@ private:
       const opentelemetry::sdk::instrumentationscope::InstrumentationScope &instrumentation_scope)
   {
     return selector->GetNameFilter()->Match(instrumentation_scope.GetName()) &&
-           (instrumentation_scope.GetVersion().size() == 0 ||
-            selector->GetVersionFilter()->Match(instrumentation_scope.GetVersion())) &&
-           (instrumentation_scope.GetSchemaURL().size() == 0 ||
-            selector->GetSchemaFilter()->Match(instrumentation_scope.GetSchemaURL()));
+           selector->GetVersionFilter()->Match(instrumentation_scope.GetVersion()) &&
+           selector->GetSchemaFilter()->Match(instrumentation_scope.GetSchemaURL());
   }
 
   static bool MatchInstrument(
